@@ -49,16 +49,12 @@ def combine_patches(diffs):
 def adjust_patch_level(target_path, common_path, diff):
     n = len(target_path)
     assert common_path[:n] == target_path
-    if n == len(target_path):
+    if n == len(common_path) or not diff:
         return diff
-    remainder_path = tuple(reversed(common_path[n:]))
-    newdiff = []
-    for d in diff:
-        nd = d
-        assert nd is not None
-        for key in remainder_path:
-            nd = op_patch(key, nd)
-        newdiff.append(nd)
+    # Wrap the diff in patches so that it applies at target_path
+    newdiff = diff
+    for key in reversed(common_path[n:]):
+        newdiff = [op_patch(key, newdiff)]
     return newdiff
 
 
@@ -189,7 +185,8 @@ def resolve_strategy_inline_attachments(base_path, attachments, decisions):
             # Not merging attachment contents, but adding attachments
             # with new names LOCAL_oldname and REMOTE_oldname instead.
 
-            base = attachments[key]
+            # No base value if both sides added an attachment with this name
+            base = attachments.get(key)
 
             if ld.op == DiffOp.ADD:
                 assert rd.op == DiffOp.ADD
